@@ -339,7 +339,7 @@ func (rep *Report) finish(E *Engine, prop string, cfg *PropCfg, tier string, see
 	cov := map[string]interface{}{
 		"obligations":              nobl,
 		"discharged":               ndis,
-		"checker_cmd":              fmt.Sprintf("/verif/bin/govc check -prop %s -tier %s  (VC generator over go/ssa of /repo's working tree; pass 1: z3 5.1.0 incremental, E-matching, array extensionality off; pass 2 per remaining obligation: race of z3 5.1.0 (E-matching with and without extensionality, default), z3 4.8.12 (E-matching) and cvc5 1.0, one retry with 3x budget for solvers that ran out of time)", prop, tier),
+		"checker_cmd":              fmt.Sprintf("/verif/bin/govc check -prop %s -tier %s  (VC generator over go/ssa of /repo's working tree; pass 1: z3 5.1.0 incremental, E-matching, array extensionality off; pass 2 per remaining obligation: race of z3 5.1.0 (E-matching with and without extensionality, default), z3 4.8.12 (E-matching) and cvc5 1.0, one retry with 3x budget for solvers that ran out of time; a failed obligation is replayed on the real code: the solver's candidate model as a call of the real function where the signature allows it, else a seeded scenario search with the property's executable oracle)", prop, tier),
 		"trusted_base":             tb,
 		"samples":                  smp,
 		"functions_under_contract": funcs,
